@@ -328,6 +328,9 @@ class STok:
     def __truediv__(self, o):
         return self._bin("div", o)
 
+    def __pow__(self, e):
+        return STok(("pow", self.term, e), self.shape)
+
     def __neg__(self):
         t = self.term
         if isinstance(t, tuple) and t and t[0] == "neg":
@@ -732,7 +735,8 @@ def shaped_libfn(table=None):
 
         def generic(*args, **kwargs):
             shp = next((a.shape for a in args if isinstance(a, STok)), ())
-            return STok((short,) + tuple(getattr(a, "term", ("const", repr(a))) for a in args), shp)
+            head = {"sum": "total"}.get(short, short)  # ("sum", ...) is the canonical form of an addition of terms
+            return STok((head,) + tuple(getattr(a, "term", ("const", repr(a))) for a in args), shp)
 
         return generic
 
